@@ -39,7 +39,13 @@ func (exec *Executor) compareItems(ctx context.Context, node ast.Node, left, rig
 	case int64, float64, json.Number:
 		switch right.(type) {
 		case int64, float64, json.Number:
-			cmp = compareNumeric(left, right)
+			lnum, lok := toNumber(left)
+			rnum, rok := toNumber(right)
+			if !lok || !rok {
+				// A json.Number too large for a float64 compares as unknown.
+				return predUnknown, nil
+			}
+			cmp = compareNumeric(lnum, rnum)
 		default:
 			return predUnknown, nil
 		}
@@ -68,6 +74,23 @@ func (exec *Executor) compareItems(ctx context.Context, node ast.Node, left, rig
 	}
 
 	return applyCompare(op, cmp)
+}
+
+// toNumber converts a json.Number to an int64 (preferably) or a float64 and
+// returns any other value unchanged. Returns false if val is a json.Number
+// that can be converted to neither.
+func toNumber(val any) (any, bool) {
+	num, ok := val.(json.Number)
+	if !ok {
+		return val, true
+	}
+	if integer, err := num.Int64(); err == nil {
+		return integer, true
+	}
+	if float, err := num.Float64(); err == nil {
+		return float, true
+	}
+	return nil, false
 }
 
 // compareBool compares two boolean values and returns 0, 1, or -1. Returns
